@@ -129,6 +129,19 @@ func Ops(sp *Spec) []string {
 		for i := range sp.Docs {
 			ops = append(ops, fmt.Sprintf("Validate:%d", i))
 		}
+		for i, ty := range sp.Schema.Types {
+			if ty.Regex {
+				// a regex type object is a schema, too: its example is asked for directly
+				ops = append(ops, fmt.Sprintf("TypeExample:%d", i))
+			}
+		}
+		if sp.Schema.TypesKnowTypes {
+			// the added types are schemas of their own: they are checked, too (concurrently with the
+			// root they were added to, in the concurrency check)
+			for i := range sp.Schema.Types {
+				ops = append(ops, fmt.Sprintf("TypeCheck:%d", i))
+			}
+		}
 		return ops
 	case "json":
 		return []string{"Check", "Len", "NextLexeme:3", "NextLexeme:100", "Drain:2", "Drain:1000"}
@@ -187,6 +200,24 @@ func Do(o *Obj, op string) (res string, kept []Retained) {
 				kept = append(kept, Retained{What: "UsedUserTypes slice", Live: func() string { return fmt.Sprint(uu) }, Snapshot: fmt.Sprint(u)})
 			}
 			return fmt.Sprintf("%v|%s", u, canonRes(r)), kept
+		case len(op) > 12 && op[:12] == "TypeExample:":
+			var i int
+			fmt.Sscanf(op, "TypeExample:%d", &i)
+			ty := o.Types[o.Spec.Schema.Types[i].Name]
+			if ty == nil {
+				return "no such type", nil
+			}
+			var b []byte
+			r := lib.Safe(func() error { var err error; b, err = ty.Example(); return err })
+			return fmt.Sprintf("%q|%s", b, canonRes(r)), nil
+		case len(op) > 10 && op[:10] == "TypeCheck:":
+			var i int
+			fmt.Sscanf(op, "TypeCheck:%d", &i)
+			ty, ok := o.Types[o.Spec.Schema.Types[i].Name].(*js.Schema)
+			if !ok {
+				return "not a schema", nil
+			}
+			return canonRes(lib.Check(ty)), nil
 		case len(op) > 13 && op[:13] == "ValidateKept:":
 			// the same Document object every time (it has been validated, by this and maybe by
 			// other schema objects, before): the verdict is that of a fresh document
